@@ -43,7 +43,7 @@ namespace sqf
                 if (obj->varname().empty())
                 {
                     std::stringstream sstream;
-                    sstream << static_cast<const void*>(obj.get()) << "# " << obj->netid() << ": " << obj->config().name();
+                    sstream << "# " << obj->netid() << ": " << obj->config().name();
                     return sstream.str();
                 }
                 else
